@@ -80,9 +80,9 @@ structure InvPending (B : Addr → Addr) (st : State) (id : UUID) : Prop where
   recInScope : RecordsInSessionScope st
   addrScope : AddrScopeExact B st
   specScope : SpecScopeExact st
-  ownerScopeSpec : OwnerScopeSpecSound B st
+  ownerScopeSpec : OwnerScopeSpecExact B st
   cspecScopeSpec : CSpecScopeSpecExact st
-  ownerCSpec : OwnerCSpecSound B st
+  ownerCSpec : OwnerCSpecExact B st
   voScope : ∀ p ∈ st.valueOwners, p.1 = id ∨ ∃ sc ∈ st.scopes, sc.id = p.1
   navScope : ∀ p ∈ st.navs, p.1 = id ∨ ∃ sc ∈ st.scopes, sc.id = p.1
 
